@@ -35,6 +35,14 @@ type instructionType struct {
 	// instruction.
 	immediate immType
 
+	// shiftImmBits is number of bits of a shift amount encoded in bits
+	// [20..20+shiftImmBits) of an instruction. Zero value means that the
+	// instruction encodes no shift amount.
+	shiftImmBits uint8
+	// hasCSRImm indicates that an instruction encodes a 5 bit unsigned
+	// immediate value in place of rs1 register (CSR immediate instructions).
+	hasCSRImm bool
+
 	// instrType is set of instruction types of an opcode.
 	instrType model.Type
 
